@@ -712,3 +712,44 @@ def const_array(x, kind=None):
 
 def is_sym(x):
     return isinstance(x, Sym)
+
+
+# --------------------------------------------------------------------------- numeric evaluation (replays)
+def eval_poly(p, varvals, bvals=None, _memo=None):
+    """Float value of a polynomial under an assignment of the input variables; defined atoms are evaluated from their
+    definitions (sqrt, recip, ite, def, maxsel, abstract constants).  Uninterpreted functions cannot be evaluated."""
+    memo = {} if _memo is None else _memo
+
+    def atom_val(i):
+        if i in memo:
+            return memo[i]
+        kind, payload = CTX.atoms[i]
+        if kind == "var":
+            v = float(CONST_VALUES[payload]) if payload in CONST_VALUES else float(varvals.get(payload, 0.0))
+        elif kind == "sqrt":
+            v = math.sqrt(max(payload.eval(atom_val), 0.0))
+        elif kind == "recip":
+            v = 1.0 / payload.eval(atom_val)
+        elif kind == "def":
+            v = payload.eval(atom_val)
+        elif kind == "ite":
+            c, a, b = payload
+            v = a.eval(atom_val) if c.eval(atom_val, (lambda n: (bvals or {}).get(n, False))) else b.eval(atom_val)
+        elif kind == "maxsel":
+            best = max(payload, key=lambda tv: tv[0].eval(atom_val))
+            v = best[1].eval(atom_val)
+        else:
+            raise ValueError(f"cannot evaluate atom of kind {kind}")
+        memo[i] = v
+        return v
+    return float(p.eval(atom_val))
+
+
+def eval_array(a, varvals, bvals=None):
+    a = a.a if isinstance(a, Sym) else np.asarray(a, dtype=object)
+    out = np.empty(a.shape, dtype=np.float64)
+    memo = {}
+    of = out.reshape(-1)
+    for j, p in enumerate(a.reshape(-1)):
+        of[j] = eval_poly(as_poly(p), varvals, bvals, memo)
+    return out
